@@ -1304,6 +1304,35 @@ def constructs_of(ans_in):
     return ks
 
 
+_QUOTED = re.compile(r'"(?:[^"\\]|\\.)*"')
+
+
+def tree_comments(cst):
+    """the comments of the green-tree dump in leaf order (leading then trailing trivia of every token)"""
+    out = []
+    for m in _QUOTED.finditer(cst):
+        p = m.start()
+        if p >= 2 and cst[p - 1] in "LB" and cst[p - 2] in "( ":
+            out.append(cst[p - 1] + unesc(m.group(0)[1:-1]))
+    return out
+
+
+def surviving_comments(toks):
+    """the comment tokens of the source in order, without those the pre-parser drops (before the first syntax token, followed
+    by a line break before it: Fmt.Attach.survivors)"""
+    out, pending, seen_syntax = [], [], False
+    for t in toks:
+        if t[0] == 'T':
+            seen_syntax = True
+            out += pending
+            pending = []
+        elif t[0] in "LB":
+            (out if seen_syntax else pending).append(t)
+        elif t == "N" and not seen_syntax:
+            pending = []
+    return out if seen_syntax else []
+
+
 def shipped_sources():
     files = sorted(f for f in glob.glob(os.path.join(REPO, "**", "*.mmm"), recursive=True)
                    if os.sep + "target" + os.sep not in f)
@@ -1407,6 +1436,7 @@ def run(ck):
     idem_mismatch = []
     emits_mismatch = []
     same_parse_mismatch = []
+    attach_bad = []
     keeps_false_all = []
     rl_bad = []
     tot = {"frag": 0, "adm": 0, "unsafe": 0, "unsafe_outside": 0, "samedoc0_good": 0, "relayout": 0,
@@ -1442,6 +1472,13 @@ def run(ck):
             add("runs", len(a["runs"]))
             for k in constructs_of(a["in"]):
                 add("construct:" + k)
+            # C14_trivia_attached_in_order / `decorated` on the real pre-parser and parser: the leaves of the green tree carry
+            # every comment the pre-parser does not drop, once, in source order
+            tc, sc = tree_comments(a["in"]["cst"]), surviving_comments(a["in"]["toks"])
+            add("tree_comment_order_checked")
+            add("tree_comments", len(tc))
+            if tc != sc:
+                attach_bad.append((o, s, p, tc[:6], sc[:6]))
             allsy = set()
             for run_ in a["runs"]:
                 allsy |= symptoms(a["in"], run_)
@@ -1637,6 +1674,11 @@ def run(ck):
     ck.coverage["sources_where_keeps_breaks_fails"] = len(keeps_false_all)
     for (o, s, p) in keeps_false_all[:3]:
         ck.sample({"keeps_breaks_false": True, "origin": o, "path": p, "source_head": s[:300]}, cap=12)
+    if attach_bad and not viol:
+        o, s, p, tc, sc = attach_bad[0]
+        ck.broken.append("hypothesis `decorated` of C14_comments_emitted_once_in_order_partial / C14_trivia_attached_in_order on the real pre-parser")
+        ck.violation("the leaves of the real green tree do not carry every non-dropped comment of the source once and in source order",
+                     {"src": s, "path": p, "tree_comments_head": tc, "expected_head": sc, "cases": len(attach_bad)}, no_input=True)
     if same_parse_mismatch and not viol:
         o, s, p, w, i = same_parse_mismatch[0]
         ck.broken.append("hypothesis of C14_same_parse_as_source_partial: the model says the output has the tokens of the source and "
